@@ -1,8 +1,8 @@
 (* C15  The model hierarchy is consistent across its shared limits (0D Snowing vs isolated Snowflake vial).
-   PARTIAL: the 1D -> 0D thermally-thin limit is asymptotic and the 2D/1D comparison is carried by the oracle
-   (and the known finding on the in-place 2D sweep); see DESIGN.md. *)
+   PARTIAL: the 1D -> 0D thermally-thin limit is asymptotic (oracle); the 2D -> 1D limit is proved for a
+   simultaneous sweep and REFUTED for the in-place sweep of the implementation (known finding F9); see DESIGN.md. *)
 From Coq Require Import Reals ZArith List Bool.
-From Snow Require Import Num NumR Sn1D SnProofs Flake FlakeProofs.
+From Snow Require Import Num NumR Sn1D SnProofs Flake FlakeProofs Sn2D Sn2DProofs.
 Import ListNotations.
 Local Open Scope R_scope.
 
@@ -30,3 +30,20 @@ Theorem C15_nucleation_0D_satisfies_snowflake_direct_balance :
   x = q_Tm P1 - D / (1 - sigma) /\ x - Tn = sigma * gamma.
 Proof. intros. apply nucleation_0D_satisfies_the_snowflake_direct_balance; assumption. Qed.
 Print Assumptions C15_nucleation_0D_satisfies_snowflake_direct_balance.
+
+(* 2D -> 1D: with no heat through the side wall and a radially uniform field, a SIMULTANEOUS evaluation of the 2D
+   cooling stencil leaves the field radially uniform (every column follows the same axial recurrence) *)
+Theorem C15_2D_simultaneous_sweep_keeps_radial_uniformity :
+  forall (P : @p2d R) Nz Nr rr g Tsh q qe, (3 <= Nz)%nat -> (3 <= Nr)%nat -> shape g Nz Nr -> runiform Nz Nr g ->
+  s_Kw P = 0 -> (length qe = Nr /\ forall j, (j < Nr)%nat -> nth j qe 0 = q) ->
+  runiform Nz Nr (cool_step2_gen Rops P Nz Nr rr false g Tsh qe).
+Proof. intros. eapply jacobi_keeps_uniform; eassumption. Qed.
+Print Assumptions C15_2D_simultaneous_sweep_keeps_radial_uniformity.
+
+(* ... and the in-place sweep the implementation performs (model/Sn2D.v, tied to _run_2D by one-step
+   correspondence) does not: the full statement is false of the faithful model.  Witness: a 3x3 field. *)
+Theorem C15_2D_inplace_sweep_radial_uniformity_refuted :
+  exists (P : @p2d R) (rr : list R) (g : @grid R) (Tsh : R) (qe : list R), runiform 3 3 g /\ s_Kw P = 0 /\ shape g 3 3 /\
+  ~ runiform 3 3 (cool_step2 Rops P 3 3 rr g Tsh qe).
+Proof. exists Pw, rw, gw, 0, [0; 0; 0]. exact inplace_breaks_uniformity. Qed.
+Print Assumptions C15_2D_inplace_sweep_radial_uniformity_refuted.
